@@ -1,1 +1,1625 @@
-fn main() {}
+//! C09 — glyph outlines written to glyf/loca are the outlines read and drawn back.
+//!
+//! Bounded exhaustive exploration of write_fonts `SimpleGlyph` / `CompositeGlyph` / `GlyfLocaBuilder`
+//! against read_fonts' glyf/loca readers and skrifa's unscaled drawing. See DESIGN.md §3 C09.
+//!
+//! Enumerated spaces (fixed order, no sampling):
+//!  A   simple glyphs: every point sequence of length <= n whose per-axis deltas come from
+//!      D = {0, ±1, ±255, ±256, 32767, -32768} (coordinates must stay in i16), each point on/off curve,
+//!      every split into contours, instruction lengths {0,1,2,3} (n = 3 quick; n = 4 thorough over
+//!      D4 = {0, ±1, ±255, ±256}); the one-point sub-family is additionally built under the long
+//!      location format
+//!  A2  flag-run families: r points of one flag class (32 classes) for every r in 1..=R (R = 520 quick,
+//!      1030 thorough), with 0/1/2 points of a different class before and after
+//!  B   composites: every component list of length <= 2 over glyph ids × anchors (offset/point,
+//!      byte/word boundaries) × transforms (none, scale, xy-scale, 2x2) × the 32 flag sets
+//!  C   builder sequences: every sequence of <= 3 (4) glyphs from {Empty, contour-less simple, even simple,
+//!      odd simple (needs padding), composite}, each under both location formats; sized families
+//!      whose final offset lies on every even value of 0x1FFF8..=0x20006
+//!  D   paths: closed line/quadratic contours of k <= 4 (5) segments whose on-curve points between two
+//!      quads are {exact midpoint, off by one in x, off by one in y, off by a half, far}, controls with
+//!      both parities; two closing styles; pairs of two-segment contours
+//!
+//! Oracle: the input itself, decoded independently through `Loca::get_glyf` + `SimpleGlyph::points`
+//! / `read_points_fast` / `CompositeGlyph::components`, a reference shortest-length computation, and a
+//! cyclic segment-list comparison for drawn paths.
+
+use font_types::{F2Dot14, GlyphId, GlyphId16, Point, Tag};
+use kurbo::BezPath;
+use rayon::prelude::*;
+use read_fonts::tables::glyf as rg;
+use read_fonts::tables::glyf::CurvePoint;
+use read_fonts::tables::loca as rl;
+use read_fonts::{FontData, FontRead, FontRef};
+use serde_json::{json, Value};
+use skrifa::instance::{LocationRef, Size};
+use skrifa::outline::{DrawSettings, OutlinePen};
+use skrifa::MetadataProvider;
+use std::collections::HashSet;
+use vcore::*;
+use write_fonts::tables::glyf::{
+    Anchor, Bbox, Component, ComponentFlags, CompositeGlyph, Contour, GlyfLocaBuilder,
+    Glyph, SimpleGlyph, Transform,
+};
+use write_fonts::tables::head::Head;
+use write_fonts::tables::hhea::Hhea;
+use write_fonts::tables::hmtx::{Hmtx, LongMetric};
+use write_fonts::tables::loca::LocaFormat;
+use write_fonts::tables::maxp::Maxp;
+use write_fonts::{dump_table, FontBuilder};
+
+fn main() {
+    main_for("C09", body)
+}
+
+struct Local {
+    all: HashSet<u64>,
+    nontrivial: HashSet<u64>,
+    evals: u64,
+    trans: u64,
+    padded: u64,
+    shorter_than_ref: u64,
+    long_format: u64,
+    elided: u64,
+}
+impl Local {
+    fn new() -> Self {
+        Local {
+            all: HashSet::new(),
+            nontrivial: HashSet::new(),
+            evals: 0,
+            trans: 0,
+            padded: 0,
+            shorter_than_ref: 0,
+            long_format: 0,
+            elided: 0,
+        }
+    }
+    fn merge(self, run: &Run, prefix: &str) {
+        run.observe_many(&self.all, &self.nontrivial);
+        run.evals(self.evals);
+        run.trans(self.trans);
+        run.count(&format!("{prefix}.cases"), self.evals);
+        run.count(&format!("{prefix}.glyphs_needing_padding"), self.padded);
+        run.count(&format!("{prefix}.encoded_shorter_than_reference"), self.shorter_than_ref);
+        run.count(&format!("{prefix}.built_with_long_loca"), self.long_format);
+        run.count(&format!("{prefix}.implied_points_elided"), self.elided);
+    }
+}
+
+// ---------------------------------------------------------------------------
+// glyph descriptions (what a replay file carries)
+// ---------------------------------------------------------------------------
+
+type Pt = (i16, i16, bool);
+
+#[derive(Clone, Debug, PartialEq)]
+struct CompSpec {
+    gid: u16,
+    anchor: (bool, i32, i32), // (is_offset, a, b)
+    xf: [i16; 4],             // F2Dot14 bits xx, yx, xy, yy
+    flags: u8,                // 5 bits: round, my_metrics, scaled, unscaled, overlap
+}
+
+#[derive(Clone, Debug, PartialEq)]
+enum GSpec {
+    Empty,
+    Simple { contours: Vec<Vec<Pt>>, instr: Vec<u8> },
+    Composite { comps: Vec<CompSpec>, bbox: [i16; 4] },
+}
+
+fn gspec_json(g: &GSpec) -> Value {
+    match g {
+        GSpec::Empty => json!({"g":"empty"}),
+        GSpec::Simple { contours, instr } => json!({
+            "g":"simple",
+            "contours": contours.iter().map(|c| c.iter().map(|p| json!([p.0,p.1,p.2 as u8])).collect::<Vec<_>>()).collect::<Vec<_>>(),
+            "instr": hex(instr),
+        }),
+        GSpec::Composite { comps, bbox } => json!({
+            "g":"composite",
+            "bbox": bbox,
+            "comps": comps.iter().map(|c| json!({"gid":c.gid,"offset":c.anchor.0,"a":c.anchor.1,"b":c.anchor.2,"xf":c.xf,"flags":c.flags})).collect::<Vec<_>>(),
+        }),
+    }
+}
+
+fn gspec_from_json(v: &Value) -> GSpec {
+    match v["g"].as_str() {
+        Some("simple") => GSpec::Simple {
+            contours: v["contours"]
+                .as_array()
+                .unwrap()
+                .iter()
+                .map(|c| {
+                    c.as_array()
+                        .unwrap()
+                        .iter()
+                        .map(|p| {
+                            (
+                                p[0].as_i64().unwrap() as i16,
+                                p[1].as_i64().unwrap() as i16,
+                                p[2].as_i64().unwrap() != 0,
+                            )
+                        })
+                        .collect()
+                })
+                .collect(),
+            instr: unhex(v["instr"].as_str().unwrap_or("")),
+        },
+        Some("composite") => GSpec::Composite {
+            bbox: {
+                let b = v["bbox"].as_array().unwrap();
+                [0, 1, 2, 3].map(|i| b[i].as_i64().unwrap() as i16)
+            },
+            comps: v["comps"]
+                .as_array()
+                .unwrap()
+                .iter()
+                .map(|c| CompSpec {
+                    gid: c["gid"].as_u64().unwrap() as u16,
+                    anchor: (
+                        c["offset"].as_bool().unwrap(),
+                        c["a"].as_i64().unwrap() as i32,
+                        c["b"].as_i64().unwrap() as i32,
+                    ),
+                    xf: {
+                        let b = c["xf"].as_array().unwrap();
+                        [0, 1, 2, 3].map(|i| b[i].as_i64().unwrap() as i16)
+                    },
+                    flags: c["flags"].as_u64().unwrap() as u8,
+                })
+                .collect(),
+        },
+        _ => GSpec::Empty,
+    }
+}
+
+fn bbox_of(contours: &[Vec<Pt>]) -> Bbox {
+    let mut it = contours.iter().flatten();
+    let Some(f) = it.next() else {
+        return Bbox::default();
+    };
+    let mut b = Bbox { x_min: f.0, x_max: f.0, y_min: f.1, y_max: f.1 };
+    for p in it {
+        b.x_min = b.x_min.min(p.0);
+        b.x_max = b.x_max.max(p.0);
+        b.y_min = b.y_min.min(p.1);
+        b.y_max = b.y_max.max(p.1);
+    }
+    b
+}
+
+fn comp_flags(bits: u8) -> ComponentFlags {
+    ComponentFlags {
+        round_xy_to_grid: bits & 1 != 0,
+        use_my_metrics: bits & 2 != 0,
+        scaled_component_offset: bits & 4 != 0,
+        unscaled_component_offset: bits & 8 != 0,
+        overlap_compound: bits & 16 != 0,
+    }
+}
+
+fn comp_anchor(a: (bool, i32, i32)) -> Anchor {
+    if a.0 {
+        Anchor::Offset { x: a.1 as i16, y: a.2 as i16 }
+    } else {
+        Anchor::Point { base: a.1 as u16, component: a.2 as u16 }
+    }
+}
+
+fn comp_xf(x: [i16; 4]) -> Transform {
+    Transform {
+        xx: F2Dot14::from_bits(x[0]),
+        yx: F2Dot14::from_bits(x[1]),
+        xy: F2Dot14::from_bits(x[2]),
+        yy: F2Dot14::from_bits(x[3]),
+    }
+}
+
+fn to_write_glyph(g: &GSpec) -> Glyph {
+    match g {
+        GSpec::Empty => Glyph::Empty,
+        GSpec::Simple { contours, instr } => Glyph::Simple(SimpleGlyph {
+            bbox: bbox_of(contours),
+            contours: contours
+                .iter()
+                .map(|c| {
+                    Contour::from(
+                        c.iter().map(|p| CurvePoint::new(p.0, p.1, p.2)).collect::<Vec<_>>(),
+                    )
+                })
+                .collect(),
+            instructions: instr.clone(),
+        }),
+        GSpec::Composite { comps, bbox } => {
+            let bb = Bbox { x_min: bbox[0], y_min: bbox[1], x_max: bbox[2], y_max: bbox[3] };
+            let mut it = comps.iter().map(|c| {
+                Component::new(
+                    GlyphId16::new(c.gid),
+                    comp_anchor(c.anchor),
+                    comp_xf(c.xf),
+                    comp_flags(c.flags),
+                )
+            });
+            let mut g = CompositeGlyph::new(it.next().expect(">=1 component"), bb);
+            for c in it {
+                g.add_component(c, bb);
+            }
+            Glyph::Composite(g)
+        }
+    }
+}
+
+// ---------------------------------------------------------------------------
+// reference shortest encoding length of a simple glyph
+// ---------------------------------------------------------------------------
+
+/// Length in bytes of the canonical shortest encoding: header, end points, instructions, flags with
+/// optimal run-length use (a flag byte covers one point, a flag+repeat pair up to 256), one byte for
+/// |delta| <= 255, none for 0, two otherwise; padded to 2 bytes (the builder's alignment).
+fn reference_len(contours: &[Vec<Pt>], instr_len: usize) -> usize {
+    if contours.is_empty() {
+        return 0;
+    }
+    let mut len = 10 + 2 * contours.len() + 2 + instr_len;
+    let (mut lx, mut ly) = (0i32, 0i32);
+    let mut prev_class: Option<(bool, u8, u8)> = None;
+    let mut run = 0usize;
+    let flush = |run: usize| -> usize {
+        let full = run / 256;
+        let rem = run % 256;
+        2 * full + match rem {
+            0 => 0,
+            1 => 1,
+            _ => 2,
+        }
+    };
+    let class = |d: i32| -> (u8, usize) {
+        match d {
+            0 => (0, 0),
+            1..=255 => (1, 1),
+            -255..=-1 => (2, 1),
+            _ => (3, 2),
+        }
+    };
+    for p in contours.iter().flatten() {
+        let (cx, bx) = class(p.0 as i32 - lx);
+        let (cy, by) = class(p.1 as i32 - ly);
+        lx = p.0 as i32;
+        ly = p.1 as i32;
+        len += bx + by;
+        let c = (p.2, cx, cy);
+        if Some(c) == prev_class {
+            run += 1;
+        } else {
+            len += flush(run);
+            run = 1;
+            prev_class = Some(c);
+        }
+    }
+    len += flush(run);
+    (len + 1) & !1
+}
+
+// ---------------------------------------------------------------------------
+// build + independent decode of a glyph sequence
+// ---------------------------------------------------------------------------
+
+fn seq_json(family: &str, seq: &[GSpec], fillers: usize) -> Value {
+    json!({"kind":"seq","family":family,"fillers":fillers,"glyphs": seq.iter().map(gspec_json).collect::<Vec<_>>()})
+}
+
+/// A glyph of exactly `size` bytes (size even, 16 <= size <= 65548): one on-curve point at the
+/// origin and size-15 instruction bytes with a position-dependent pattern.
+fn sized_glyph(size: usize, salt: u8) -> GSpec {
+    assert!(size % 2 == 0 && size >= 16 && size - 15 < 65535);
+    GSpec::Simple {
+        contours: vec![vec![(0, 0, true)]],
+        instr: (0..size - 15).map(|i| ((i % 251) as u8).wrapping_add(salt)).collect(),
+    }
+}
+
+struct Built {
+    glyf: Vec<u8>,
+    loca: Vec<u8>,
+    long: bool,
+    lens: Vec<usize>,
+}
+
+/// Build `seq` (+ `fillers` big glyphs appended to push the final offset past 0x20000) and check every
+/// glyph against its description. Returns the built tables for further use (drawing).
+fn check_sequence(
+    run: &Run,
+    family: &str,
+    seq: &[GSpec],
+    fillers: usize,
+    l: &mut Local,
+    case: &dyn Fn() -> Value,
+) -> Option<Built> {
+    let mut all: Vec<GSpec> = seq.to_vec();
+    for i in 0..fillers {
+        all.push(sized_glyph(65548, i as u8));
+    }
+    let wg: Vec<Glyph> = all.iter().map(to_write_glyph).collect();
+    // individual encodings (length oracle + expected offsets)
+    let mut lens = vec![];
+    for (i, (g, spec)) in wg.iter().zip(all.iter()).enumerate() {
+        l.trans += 1;
+        let bytes = match guard(|| dump_table(g)) {
+            Ok(Ok(b)) => b,
+            Ok(Err(e)) => {
+                run.violation(
+                    &format!("{family}: glyph fails to compile"),
+                    &format!("glyph {i}: {e}"),
+                    case(),
+                );
+                return None;
+            }
+            Err(p) => {
+                run.violation(
+                    &format!("{family}: glyph compile panic: {} in {}", p.kind(), p.site()),
+                    &format!("glyph {i}: {} ({}:{})", p.message, p.file, p.line),
+                    case(),
+                );
+                return None;
+            }
+        };
+        if let GSpec::Simple { contours, instr } = spec {
+            let r = reference_len(contours, instr.len());
+            if bytes.len() > r {
+                run.violation(
+                    "SimpleGlyph encoding is longer than the canonical shortest encoding",
+                    &format!("glyph {i}: {} bytes, reference {} bytes", bytes.len(), r),
+                    case(),
+                );
+            } else if bytes.len() < r {
+                l.shorter_than_ref += 1;
+            }
+        }
+        lens.push(bytes.len());
+    }
+    let mut builder = GlyfLocaBuilder::new();
+    l.trans += all.len() as u64 + 1;
+    let r = guard(|| {
+        for g in &wg {
+            builder.add_glyph(g).map_err(|e| format!("{e}"))?;
+        }
+        let (glyf, loca, fmt) = builder.build();
+        let gb = dump_table(&glyf).map_err(|e| format!("{e}"))?;
+        let lb = dump_table(&loca).map_err(|e| format!("{e}"))?;
+        Ok::<_, String>((gb, lb, fmt))
+    });
+    let (glyf_b, loca_b, fmt) = match r {
+        Ok(Ok(t)) => t,
+        Ok(Err(e)) => {
+            run.violation(&format!("{family}: GlyfLocaBuilder fails"), &e, case());
+            return None;
+        }
+        Err(p) => {
+            run.violation(
+                &format!("{family}: GlyfLocaBuilder panic: {} in {}", p.kind(), p.site()),
+                &format!("{} ({}:{})", p.message, p.file, p.line),
+                case(),
+            );
+            return None;
+        }
+    };
+    // expected offsets and location format
+    let mut offs = vec![0usize];
+    for n in &lens {
+        offs.push(offs.last().unwrap() + n);
+    }
+    let expect_long = !(offs.iter().all(|o| o % 2 == 0) && *offs.last().unwrap() < 0x20000);
+    let long = fmt == LocaFormat::Long;
+    if long != expect_long {
+        run.violation(
+            &format!(
+                "LocaFormat is {} although the final offset is {} 0x20000",
+                if long { "long" } else { "short" },
+                if expect_long { ">=" } else { "<" }
+            ),
+            &format!("offsets {:x?}", &offs[offs.len().saturating_sub(4)..]),
+            case(),
+        );
+    }
+    if long {
+        l.long_format += 1;
+    }
+    let r = guard(|| decode_and_compare(run, family, &all, seq.len(), &glyf_b, &loca_b, long, &offs, l, case));
+    if let Err(p) = r {
+        run.violation(
+            &format!("{family}: glyf/loca reader panic: {} in {}", p.kind(), p.site()),
+            &format!("{} ({}:{})", p.message, p.file, p.line),
+            case(),
+        );
+        return None;
+    }
+    Some(Built { glyf: glyf_b, loca: loca_b, long, lens })
+}
+
+#[allow(clippy::too_many_arguments)]
+fn decode_and_compare(
+    run: &Run,
+    family: &str,
+    all: &[GSpec],
+    n_real: usize,
+    glyf_b: &[u8],
+    loca_b: &[u8],
+    long: bool,
+    offs: &[usize],
+    l: &mut Local,
+    case: &dyn Fn() -> Value,
+) {
+    let fmtname = if long { "long" } else { "short" };
+    let loca = match rl::Loca::read(FontData::new(loca_b), long) {
+        Ok(x) => x,
+        Err(e) => {
+            run.violation(&format!("{family}: built loca does not parse"), &format!("{e}"), case());
+            return;
+        }
+    };
+    let glyf = match rg::Glyf::read(FontData::new(glyf_b)) {
+        Ok(x) => x,
+        Err(e) => {
+            run.violation(&format!("{family}: built glyf does not parse"), &format!("{e}"), case());
+            return;
+        }
+    };
+    if loca.len() != all.len() {
+        run.violation(
+            &format!("loca ({fmtname}) has the wrong number of entries"),
+            &format!("{} entries for {} glyphs", loca.len(), all.len()),
+            case(),
+        );
+        return;
+    }
+    if *offs.last().unwrap() != glyf_b.len() {
+        run.violation(
+            "glyf table length differs from the sum of the glyph encodings",
+            &format!("{} vs {}", glyf_b.len(), offs.last().unwrap()),
+            case(),
+        );
+    }
+    let mut h = Fnv::new();
+    h.str(family);
+    h.u64(long as u64);
+    for (i, spec) in all.iter().enumerate() {
+        l.trans += 1;
+        let raw = (loca.get_raw(i), loca.get_raw(i + 1));
+        if raw != (Some(offs[i] as u32), Some(offs[i + 1] as u32)) {
+            run.violation(
+                &format!("loca ({fmtname}) offset of a glyph differs from the builder's position"),
+                &format!("glyph {i}: loca {raw:x?}, expected {:x}..{:x}", offs[i], offs[i + 1]),
+                case(),
+            );
+            return;
+        }
+        let got = match loca.get_glyf(GlyphId::new(i as u32), &glyf) {
+            Ok(g) => g,
+            Err(e) => {
+                run.violation(
+                    &format!("Loca::get_glyf ({fmtname}) fails on a built glyph"),
+                    &format!("glyph {i}: {e}"),
+                    case(),
+                );
+                return;
+            }
+        };
+        // fillers are checked for instruction content only when they are sized glyphs: same path
+        match (spec, got) {
+            (GSpec::Empty, None) => {
+                h.str("E");
+            }
+            (GSpec::Simple { contours, .. }, None) if contours.is_empty() => {
+                h.str("e");
+            }
+            (GSpec::Simple { contours, instr }, Some(rg::Glyph::Simple(g))) if !contours.is_empty() => {
+                if let Some(what) = compare_simple(&g, contours, instr) {
+                    run.violation(
+                        &format!("simple glyph decodes differently ({fmtname} loca): {}", what.0),
+                        &format!("glyph {i}: {}", what.1),
+                        case(),
+                    );
+                    return;
+                }
+                // owned re-read through write-fonts' FromObjRef
+                let bytes = &glyf_b[offs[i]..offs[i + 1]];
+                if i < n_real {
+                    match SimpleGlyph::read(FontData::new(bytes)) {
+                        Ok(owned) => {
+                            if Glyph::Simple(owned) != to_write_glyph(spec) {
+                                run.violation(
+                                    "SimpleGlyph owned re-read differs from the glyph written",
+                                    &format!("glyph {i}"),
+                                    case(),
+                                );
+                            }
+                        }
+                        Err(e) => run.violation(
+                            "SimpleGlyph owned re-read fails",
+                            &format!("glyph {i}: {e}"),
+                            case(),
+                        ),
+                    }
+                    h.str("S");
+                    h.bytes(&bytes[10..]);
+                    if bytes.last() == Some(&0) && reference_len_unpadded_is_odd(contours, instr.len()) {
+                        l.padded += 1;
+                    }
+                }
+            }
+            (GSpec::Composite { comps, bbox }, Some(rg::Glyph::Composite(g))) => {
+                if let Some(what) = compare_composite(&g, comps, bbox) {
+                    run.violation(
+                        &format!("composite glyph decodes differently ({fmtname} loca): {}", what.0),
+                        &format!("glyph {i}: {}", what.1),
+                        case(),
+                    );
+                    return;
+                }
+                let bytes = &glyf_b[offs[i]..offs[i + 1]];
+                match CompositeGlyph::read(FontData::new(bytes)) {
+                    Ok(owned) => {
+                        if Glyph::Composite(owned) != to_write_glyph(spec) {
+                            run.violation(
+                                "CompositeGlyph owned re-read differs from the glyph written",
+                                &format!("glyph {i}"),
+                                case(),
+                            );
+                        }
+                    }
+                    Err(e) => run.violation(
+                        "CompositeGlyph owned re-read fails",
+                        &format!("glyph {i}: {e}"),
+                        case(),
+                    ),
+                }
+                h.str("C");
+                h.bytes(&bytes[10..]);
+            }
+            (spec, got) => {
+                let kind = match got {
+                    None => "no glyph",
+                    Some(rg::Glyph::Simple(_)) => "a simple glyph",
+                    Some(rg::Glyph::Composite(_)) => "a composite glyph",
+                };
+                let want = match spec {
+                    GSpec::Empty => "empty",
+                    GSpec::Simple { contours, .. } if contours.is_empty() => "contour-less simple",
+                    GSpec::Simple { .. } => "simple",
+                    GSpec::Composite { .. } => "composite",
+                };
+                run.violation(
+                    &format!("{want} glyph reads back as {kind} ({fmtname} loca)"),
+                    &format!("glyph {i}"),
+                    case(),
+                );
+                return;
+            }
+        }
+    }
+    let d = h.finish();
+    l.all.insert(d);
+    if all[..n_real].iter().any(|g| !matches!(g, GSpec::Empty)) {
+        l.nontrivial.insert(d);
+    }
+}
+
+fn reference_len_unpadded_is_odd(contours: &[Vec<Pt>], instr_len: usize) -> bool {
+    // the reference rounds up to even; recompute without rounding by probing parity through a
+    // one-byte longer instruction stream: if adding one instruction byte does not change the padded
+    // length, the unpadded length was odd.
+    reference_len(contours, instr_len) == reference_len(contours, instr_len + 1)
+}
+
+fn compare_simple(g: &rg::SimpleGlyph, contours: &[Vec<Pt>], instr: &[u8]) -> Option<(String, String)> {
+    if g.number_of_contours() as usize != contours.len() {
+        return Some((
+            "contour count".into(),
+            format!("{} vs {}", g.number_of_contours(), contours.len()),
+        ));
+    }
+    let mut ends = vec![];
+    let mut n = 0usize;
+    for c in contours {
+        n += c.len();
+        ends.push((n - 1) as u16);
+    }
+    let got_ends: Vec<u16> = g.end_pts_of_contours().iter().map(|e| e.get()).collect();
+    if got_ends != ends {
+        return Some(("contour end points".into(), format!("{got_ends:?} vs {ends:?}")));
+    }
+    if g.instructions() != instr {
+        return Some((
+            "instructions".into(),
+            format!("{} bytes vs {} bytes written", g.instructions().len(), instr.len()),
+        ));
+    }
+    let bb = bbox_of(contours);
+    if (g.x_min(), g.y_min(), g.x_max(), g.y_max()) != (bb.x_min, bb.y_min, bb.x_max, bb.y_max) {
+        return Some((
+            "bounding box".into(),
+            format!("{:?} vs {:?}", (g.x_min(), g.y_min(), g.x_max(), g.y_max()), bb),
+        ));
+    }
+    let flat: Vec<Pt> = contours.iter().flatten().copied().collect();
+    if g.num_points() != flat.len() {
+        return Some(("point count".into(), format!("{} vs {}", g.num_points(), flat.len())));
+    }
+    // reader 1: the point iterator
+    let mut count = 0;
+    for (i, p) in g.points().enumerate() {
+        count += 1;
+        match flat.get(i) {
+            Some(e) if (p.x, p.y, p.on_curve) == *e => {}
+            e => {
+                let field = match e {
+                    Some(e) if (p.x, p.y) == (e.0, e.1) => "on-curve flag",
+                    Some(_) => "coordinates",
+                    None => "extra point",
+                };
+                return Some((
+                    format!("points() {field}"),
+                    format!("point {i}: got {:?}, written {:?}", (p.x, p.y, p.on_curve), e),
+                ));
+            }
+        }
+    }
+    if count != flat.len() {
+        return Some(("points() count".into(), format!("{count} vs {}", flat.len())));
+    }
+    // reader 2: read_points_fast (what the scaler uses)
+    let mut pts = vec![Point::<i32>::default(); flat.len()];
+    let mut flags = vec![rg::PointFlags::default(); flat.len()];
+    if let Err(e) = g.read_points_fast(&mut pts, &mut flags) {
+        return Some(("read_points_fast fails".into(), format!("{e}")));
+    }
+    for i in 0..flat.len() {
+        let got = (pts[i].x, pts[i].y, flags[i].is_on_curve());
+        let e = (flat[i].0 as i32, flat[i].1 as i32, flat[i].2);
+        if got != e {
+            let field = if (got.0, got.1) == (e.0, e.1) { "on-curve flag" } else { "coordinates" };
+            return Some((
+                format!("read_points_fast {field}"),
+                format!("point {i}: got {got:?}, written {e:?}"),
+            ));
+        }
+    }
+    None
+}
+
+fn compare_composite(g: &rg::CompositeGlyph, comps: &[CompSpec], bbox: &[i16; 4]) -> Option<(String, String)> {
+    if [g.x_min(), g.y_min(), g.x_max(), g.y_max()] != *bbox {
+        return Some(("bounding box".into(), format!("{:?} vs {:?}", [g.x_min(), g.y_min(), g.x_max(), g.y_max()], bbox)));
+    }
+    let got: Vec<rg::Component> = g.components().take(comps.len() + 4).collect();
+    if got.len() != comps.len() {
+        return Some(("component count".into(), format!("{} vs {}", got.len(), comps.len())));
+    }
+    let (n, instr) = g.count_and_instructions();
+    if n != comps.len() || instr.is_some() {
+        return Some(("count_and_instructions".into(), format!("{n} / {:?}", instr.map(|i| i.len()))));
+    }
+    let ids: Vec<u16> = g.component_glyphs_and_flags().map(|(g, _)| g.to_u16()).collect();
+    if ids != comps.iter().map(|c| c.gid).collect::<Vec<_>>() {
+        return Some(("component_glyphs_and_flags ids".into(), format!("{ids:?}")));
+    }
+    for (i, (r, c)) in got.iter().zip(comps.iter()).enumerate() {
+        if r.glyph.to_u16() != c.gid {
+            return Some(("component glyph id".into(), format!("component {i}: {} vs {}", r.glyph.to_u16(), c.gid)));
+        }
+        if r.anchor != comp_anchor(c.anchor) {
+            return Some((
+                format!("component anchor ({})", if c.anchor.0 { "offset" } else { "point" }),
+                format!("component {i}: {:?} vs {:?}", r.anchor, comp_anchor(c.anchor)),
+            ));
+        }
+        if r.transform != comp_xf(c.xf) {
+            return Some(("component transform".into(), format!("component {i}: {:?} vs {:?}", r.transform, comp_xf(c.xf))));
+        }
+        if ComponentFlags::from(r.flags) != comp_flags(c.flags) {
+            return Some(("component flags".into(), format!("component {i}: {:?} vs {:?}", r.flags, comp_flags(c.flags))));
+        }
+    }
+    None
+}
+
+// ---------------------------------------------------------------------------
+// A: simple glyph point-sequence family
+// ---------------------------------------------------------------------------
+
+const D9: [i32; 9] = [0, 1, -1, 255, -255, 256, -256, 32767, -32768];
+const D7: [i32; 7] = [0, 1, -1, 255, -255, 256, -256];
+
+/// all compositions of n (contour splits), fixed order
+fn compositions(n: usize) -> Vec<Vec<usize>> {
+    if n == 0 {
+        return vec![vec![]];
+    }
+    let mut out = vec![];
+    for first in (1..=n).rev() {
+        for mut rest in compositions(n - first) {
+            let mut v = vec![first];
+            v.append(&mut rest);
+            out.push(v);
+        }
+    }
+    out
+}
+
+fn simple_family(run: &Run) {
+    let n_max = run.tier.pick(3usize, 4usize);
+    run.bound("A.deltas_D", json!(D9));
+    run.bound("A.deltas_D4_for_4_points", json!(D7));
+    run.bound("A.max_points", json!(n_max));
+    run.bound("A.instruction_lengths", json!("{0,1,2,3} for <=2 points, {0,1} for 3 points, {0} for 4 points"));
+    run.bound("A.contour_splits", json!("all compositions of the point count"));
+    // per-point alphabet: (dx, dy, on)
+    let alpha = |d: &[i32]| -> Vec<(i32, i32, bool)> {
+        let mut v = vec![];
+        for &dx in d {
+            for &dy in d {
+                for on in [true, false] {
+                    v.push((dx, dy, on));
+                }
+            }
+        }
+        v
+    };
+    let a9 = alpha(&D9);
+    let a7 = alpha(&D7);
+    for n in 1..=n_max {
+        let a = if n <= 3 { &a9 } else { &a7 };
+        let instr_lens: &[usize] = match n {
+            1 | 2 => &[0, 1, 2, 3],
+            3 => &[0, 1],
+            _ => &[0],
+        };
+        let splits = compositions(n);
+        // tasks: first two point choices (or one) for grain
+        let grain = if n >= 2 { a.len() * a.len() } else { a.len() };
+        let locals: Vec<Local> = (0..grain)
+            .into_par_iter()
+            .map(|t| {
+                let mut l = Local::new();
+                let fixed = if n >= 2 { vec![t / a.len(), t % a.len()] } else { vec![t] };
+                let free = n - fixed.len();
+                let mut digits = vec![0usize; free];
+                'outer: loop {
+                    // materialise points; skip if a coordinate leaves i16
+                    let mut pts: Vec<Pt> = Vec::with_capacity(n);
+                    let (mut x, mut y) = (0i32, 0i32);
+                    let mut ok = true;
+                    for i in 0..n {
+                        let c = if i < fixed.len() { a[fixed[i]] } else { a[digits[i - fixed.len()]] };
+                        x += c.0;
+                        y += c.1;
+                        if !(-32768..=32767).contains(&x) || !(-32768..=32767).contains(&y) {
+                            ok = false;
+                            break;
+                        }
+                        pts.push((x as i16, y as i16, c.2));
+                    }
+                    if ok {
+                        for split in &splits {
+                            let mut contours = vec![];
+                            let mut at = 0;
+                            for s in split {
+                                contours.push(pts[at..at + s].to_vec());
+                                at += s;
+                            }
+                            for &il in instr_lens {
+                                let spec = GSpec::Simple {
+                                    contours: contours.clone(),
+                                    instr: (0..il).map(|i| 0xB0 + i as u8).collect(),
+                                };
+                                l.evals += 1;
+                                let seq = [spec];
+                                let case = || seq_json("A", &seq, 0);
+                                check_sequence(run, "A", &seq, 0, &mut l, &case);
+                                if n == 1 {
+                                    // the same glyph under the long location format
+                                    l.evals += 1;
+                                    let case = || seq_json("A", &seq, 2);
+                                    check_sequence(run, "A", &seq, 2, &mut l, &case);
+                                }
+                            }
+                        }
+                    }
+                    // next digits
+                    let mut i = free;
+                    loop {
+                        if i == 0 {
+                            break 'outer;
+                        }
+                        i -= 1;
+                        digits[i] += 1;
+                        if digits[i] < a.len() {
+                            break;
+                        }
+                        digits[i] = 0;
+                    }
+                }
+                l
+            })
+            .collect();
+        for l in locals {
+            l.merge(run, &format!("A.n{n}"));
+        }
+    }
+    run.sample(seq_json(
+        "A",
+        &[GSpec::Simple { contours: vec![vec![(1, 0, true)], vec![(256, -255, false)]], instr: vec![0xB0] }],
+        0,
+    ));
+}
+
+// ---------------------------------------------------------------------------
+// A2: flag-run families
+// ---------------------------------------------------------------------------
+
+fn class_delta(class: u8, i: usize) -> i32 {
+    match class {
+        0 => 0,
+        1 => 1,
+        2 => -1,
+        _ => {
+            if i % 2 == 0 {
+                300
+            } else {
+                -300
+            }
+        }
+    }
+}
+
+fn run_family(run: &Run) {
+    let r_max = run.tier.pick(520usize, 1030usize);
+    run.bound("A2.run_lengths", json!(format!("1..={r_max}")));
+    run.bound("A2.flag_classes", json!("on/off × x{same,+short,-short,long} × y{same,+short,-short,long} = 32"));
+    run.bound("A2.prefix_suffix", json!("0, 1 or 2 points of another class before and after"));
+    let locals: Vec<Local> = (1..=r_max)
+        .into_par_iter()
+        .map(|r| {
+            let mut l = Local::new();
+            for class in 0..32u8 {
+                let (on, cx, cy) = (class & 1 != 0, (class >> 1) & 3, (class >> 3) & 3);
+                // the "other" class differs in the on-curve bit and x class
+                let (o_on, o_cx, o_cy) = (!on, (cx + 1) & 3, cy);
+                for pre in 0..3usize {
+                    for suf in 0..3usize {
+                        let mut pts: Vec<Pt> = vec![];
+                        let (mut x, mut y) = (0i32, 0i32);
+                        let mut k = 0usize;
+                        let mut push = |on: bool, cx: u8, cy: u8, pts: &mut Vec<Pt>| {
+                            x += class_delta(cx, k);
+                            y += class_delta(cy, k);
+                            k += 1;
+                            pts.push((x as i16, y as i16, on));
+                        };
+                        for _ in 0..pre {
+                            push(o_on, o_cx, o_cy, &mut pts);
+                        }
+                        for _ in 0..r {
+                            push(on, cx, cy, &mut pts);
+                        }
+                        for _ in 0..suf {
+                            push(o_on, o_cx, o_cy, &mut pts);
+                        }
+                        let spec = GSpec::Simple { contours: vec![pts], instr: vec![] };
+                        l.evals += 1;
+                        let seq = [spec];
+                        let case = || json!({"kind":"run","r":r,"class":class,"pre":pre,"suf":suf,"glyph":gspec_json(&seq[0])});
+                        check_sequence(run, "A2", &seq, 0, &mut l, &case);
+                    }
+                }
+            }
+            l
+        })
+        .collect();
+    for l in locals {
+        l.merge(run, "A2");
+    }
+}
+
+// ---------------------------------------------------------------------------
+// B: composites
+// ---------------------------------------------------------------------------
+
+fn composite_alphabet() -> Vec<CompSpec> {
+    let gids = [1u16, 0xFFFE];
+    let anchors: [(bool, i32, i32); 9] = [
+        (true, 0, 0),
+        (true, 127, -128),
+        (true, 128, 0),
+        (true, 0, -129),
+        (true, 32767, -32768),
+        (false, 0, 0),
+        (false, 255, 255),
+        (false, 256, 0),
+        (false, 7, 65535),
+    ];
+    let one = 0x4000i16;
+    let xfs: [[i16; 4]; 8] = [
+        [one, 0, 0, one],                 // identity: no transform words
+        [0x2000, 0, 0, 0x2000],           // scale 0.5
+        [i16::MIN, 0, 0, i16::MIN],       // scale -2.0
+        [0x2000, 0, 0, one],              // x/y scale
+        [one, 0, 0, 0x7FFF],              // x/y scale, max
+        [one, 0x1000, 0, one],            // 2x2 (only yx set)
+        [one, 0, -0x2000, one],           // 2x2 (only xy set)
+        [0, 0x4000, -0x4000, 0],          // 2x2 rotation
+    ];
+    let mut out = vec![];
+    for gid in gids {
+        for a in anchors {
+            for xf in xfs {
+                for flags in 0..32u8 {
+                    out.push(CompSpec { gid, anchor: a, xf, flags });
+                }
+            }
+        }
+    }
+    out
+}
+
+fn composite_family(run: &Run) {
+    let alpha = composite_alphabet();
+    run.bound("B.component_alphabet", json!(alpha.len()));
+    run.bound("B.anchors", json!("offset (0,0) (127,-128) (128,0) (0,-129) (32767,-32768); point (0,0) (255,255) (256,0) (7,65535)"));
+    run.bound("B.transforms", json!("identity, scale 0.5, scale -2, xy (0.5,1), xy (1,max), 2x2 yx, 2x2 xy, rotation"));
+    // second component alphabet: flags reduced to {0, 2 (USE_MY_METRICS), 31}
+    let second: Vec<&CompSpec> = alpha
+        .iter()
+        .filter(|c| run.tier == Tier::Thorough || matches!(c.flags, 0 | 2 | 31))
+        .collect();
+    run.bound("B.second_component_alphabet", json!(second.len()));
+    run.bound("B.max_components", json!(2));
+    let bbox = [-5i16, -32768, 32767, 9];
+    let locals: Vec<Local> = alpha
+        .par_iter()
+        .map(|c0| {
+            let mut l = Local::new();
+            let seq = [GSpec::Composite { comps: vec![c0.clone()], bbox }];
+            l.evals += 1;
+            let case = || seq_json("B", &seq, 0);
+            check_sequence(run, "B", &seq, 0, &mut l, &case);
+            for c1 in &second {
+                let seq = [GSpec::Composite { comps: vec![c0.clone(), (*c1).clone()], bbox }];
+                l.evals += 1;
+                let case = || seq_json("B", &seq, 0);
+                check_sequence(run, "B", &seq, 0, &mut l, &case);
+            }
+            l
+        })
+        .collect();
+    for l in locals {
+        l.merge(run, "B");
+    }
+    run.sample(seq_json("B", &[GSpec::Composite { comps: vec![alpha[37].clone()], bbox }], 0));
+}
+
+// ---------------------------------------------------------------------------
+// C: builder sequences and the short/long boundary
+// ---------------------------------------------------------------------------
+
+fn sequence_family(run: &Run) {
+    let letters: Vec<GSpec> = vec![
+        GSpec::Empty,
+        GSpec::Simple { contours: vec![], instr: vec![] },
+        // even: 10 + 2 + 2 + flags(2: two different) + x(1+1) + y(0) = 18
+        GSpec::Simple { contours: vec![vec![(5, 0, true), (10, 0, false)]], instr: vec![] },
+        // odd: 10 + 2 + 2 + 1 instr + flags 2 + x 2 = 19 -> padded to 20
+        GSpec::Simple { contours: vec![vec![(5, 0, true), (10, 0, false)]], instr: vec![0x4B] },
+        GSpec::Composite {
+            comps: vec![CompSpec { gid: 2, anchor: (true, 1, 1), xf: [0x4000, 0, 0, 0x4000], flags: 2 }],
+            bbox: [0, 0, 10, 10],
+        },
+    ];
+    let depth = run.tier.pick(3usize, 4usize);
+    run.bound("C.letters", json!(["Empty", "contour-less simple", "simple (even)", "simple (odd, padded)", "composite"]));
+    run.bound("C.max_sequence_length", json!(depth));
+    let mut seqs: Vec<Vec<usize>> = vec![vec![]];
+    let mut frontier: Vec<Vec<usize>> = vec![vec![]];
+    for _ in 0..depth {
+        let mut next = vec![];
+        for s in &frontier {
+            for i in 0..letters.len() {
+                let mut t = s.clone();
+                t.push(i);
+                next.push(t);
+            }
+        }
+        seqs.extend(next.iter().cloned());
+        frontier = next;
+    }
+    run.count("C.sequences", seqs.len() as u64);
+    let locals: Vec<Local> = seqs
+        .par_iter()
+        .map(|s| {
+            let mut l = Local::new();
+            let seq: Vec<GSpec> = s.iter().map(|i| letters[*i].clone()).collect();
+            for fillers in [0usize, 2] {
+                l.evals += 1;
+                let case = || seq_json("C", &seq, fillers);
+                check_sequence(run, "C", &seq, fillers, &mut l, &case);
+            }
+            l
+        })
+        .collect();
+    for l in locals {
+        l.merge(run, "C");
+    }
+    // sized families: final offset T on every even value around 0x20000
+    let totals: Vec<usize> = (0x1FFF8..=0x20006).step_by(2).collect();
+    run.bound("C.sized_final_offsets", json!(totals.iter().map(|t| format!("{t:#x}")).collect::<Vec<_>>()));
+    let firsts = [0xFFFEusize, 0x10000, 65548, 0x8000];
+    let mut layouts: Vec<(usize, usize, u8)> = vec![];
+    for &t in &totals {
+        for &a in &firsts {
+            for layout in 0..5u8 {
+                layouts.push((t, a, layout));
+            }
+        }
+    }
+    run.count("C.sized_layouts", layouts.len() as u64);
+    let locals: Vec<Local> = layouts
+        .par_iter()
+        .map(|&(t, a, layout)| {
+            let mut l = Local::new();
+            let tiny = letters[3].clone(); // 20 bytes
+            let mut seq: Vec<GSpec> = vec![];
+            // remaining bytes after the first big glyph (and the tiny one in layouts 1/4)
+            let tiny_len = if layout == 1 || layout == 4 { 20 } else { 0 };
+            let mut rest = t - a - tiny_len;
+            seq.push(sized_glyph(a, 1));
+            if layout == 1 {
+                seq.push(tiny.clone());
+            }
+            let mut salt = 2;
+            while rest > 0 {
+                // never leave a remainder below the minimum glyph size (16)
+                let mut take = rest.min(65548);
+                if rest - take != 0 && rest - take < 16 {
+                    take -= 16;
+                }
+                seq.push(sized_glyph(take, salt));
+                salt += 1;
+                rest -= take;
+            }
+            match layout {
+                2 => seq.push(GSpec::Empty),
+                3 => seq.insert(0, GSpec::Empty),
+                4 => seq.push(tiny.clone()),
+                _ => {}
+            }
+            l.evals += 1;
+            let desc = json!({"kind":"sized","total":t,"first":a,"layout":layout});
+            let case = || desc.clone();
+            if let Some(b) = check_sequence(run, "C.sized", &seq, 0, &mut l, &case) {
+                let total: usize = b.lens.iter().sum();
+                if total != t {
+                    run.machinery_error(&format!("sized family: built {total:#x}, wanted {t:#x}"));
+                }
+                let mut h = Fnv::new();
+                h.str("sized");
+                h.u64(t as u64);
+                h.u64(b.long as u64);
+                l.all.insert(h.finish());
+                l.nontrivial.insert(h.finish());
+            }
+            l
+        })
+        .collect();
+    for l in locals {
+        l.merge(run, "C.sized");
+    }
+}
+
+fn sized_from_desc(d: &Value) -> Vec<GSpec> {
+    // mirror of the construction above (for replay)
+    let t = d["total"].as_u64().unwrap() as usize;
+    let a = d["first"].as_u64().unwrap() as usize;
+    let layout = d["layout"].as_u64().unwrap() as u8;
+    let tiny = GSpec::Simple { contours: vec![vec![(5, 0, true), (10, 0, false)]], instr: vec![0x4B] };
+    let mut seq: Vec<GSpec> = vec![];
+    let tiny_len = if layout == 1 || layout == 4 { 20 } else { 0 };
+    let mut rest = t - a - tiny_len;
+    seq.push(sized_glyph(a, 1));
+    if layout == 1 {
+        seq.push(tiny.clone());
+    }
+    let mut salt = 2;
+    while rest > 0 {
+        let mut take = rest.min(65548);
+        if rest - take != 0 && rest - take < 16 {
+            take -= 16;
+        }
+        seq.push(sized_glyph(take, salt));
+        salt += 1;
+        rest -= take;
+    }
+    match layout {
+        2 => seq.push(GSpec::Empty),
+        3 => seq.insert(0, GSpec::Empty),
+        4 => seq.push(tiny),
+        _ => {}
+    }
+    seq
+}
+
+// ---------------------------------------------------------------------------
+// D: paths drawn back
+// ---------------------------------------------------------------------------
+
+#[derive(Clone, Copy, Debug, PartialEq)]
+enum El {
+    M(f64, f64),
+    L(f64, f64),
+    Q(f64, f64, f64, f64),
+    C,
+    Z,
+}
+
+fn els_json(els: &[El]) -> Value {
+    json!(els
+        .iter()
+        .map(|e| match e {
+            El::M(x, y) => json!(["M", x, y]),
+            El::L(x, y) => json!(["L", x, y]),
+            El::Q(a, b, x, y) => json!(["Q", a, b, x, y]),
+            El::C => json!(["C"]),
+            El::Z => json!(["Z"]),
+        })
+        .collect::<Vec<_>>())
+}
+
+fn els_from_json(v: &Value) -> Vec<El> {
+    v.as_array()
+        .unwrap()
+        .iter()
+        .map(|e| {
+            let f = |i: usize| e[i].as_f64().unwrap();
+            match e[0].as_str().unwrap() {
+                "M" => El::M(f(1), f(2)),
+                "L" => El::L(f(1), f(2)),
+                "Q" => El::Q(f(1), f(2), f(3), f(4)),
+                "Z" => El::Z,
+                _ => El::C,
+            }
+        })
+        .collect()
+}
+
+#[derive(Clone, Copy, Debug)]
+enum Seg {
+    L([f64; 4]),
+    Q([f64; 6]),
+}
+
+/// contours as cyclic segment lists (closing line added when the contour does not end at its start,
+/// zero-length lines dropped)
+fn contours_of(els: &[El]) -> Option<Vec<Vec<Seg>>> {
+    let mut out: Vec<Vec<Seg>> = vec![];
+    let mut cur: Vec<Seg> = vec![];
+    let mut start = (0.0, 0.0);
+    let mut at = (0.0, 0.0);
+    let mut open = false;
+    let close = |cur: &mut Vec<Seg>, out: &mut Vec<Vec<Seg>>, at: (f64, f64), start: (f64, f64)| {
+        if at != start {
+            cur.push(Seg::L([at.0, at.1, start.0, start.1]));
+        }
+        out.push(std::mem::take(cur));
+    };
+    for e in els {
+        match *e {
+            El::M(x, y) => {
+                if open {
+                    close(&mut cur, &mut out, at, start);
+                }
+                start = (x, y);
+                at = start;
+                open = true;
+            }
+            El::L(x, y) => {
+                if !open {
+                    return None;
+                }
+                if (x, y) != at {
+                    cur.push(Seg::L([at.0, at.1, x, y]));
+                }
+                at = (x, y);
+            }
+            El::Q(a, b, x, y) => {
+                if !open {
+                    return None;
+                }
+                cur.push(Seg::Q([at.0, at.1, a, b, x, y]));
+                at = (x, y);
+            }
+            El::C => return None,
+            El::Z => {
+                if open {
+                    close(&mut cur, &mut out, at, start);
+                    open = false;
+                    at = start;
+                }
+            }
+        }
+    }
+    if open {
+        close(&mut cur, &mut out, at, start);
+    }
+    Some(out)
+}
+
+fn seg_close(a: &Seg, b: &Seg, tol: f64) -> bool {
+    match (a, b) {
+        (Seg::L(x), Seg::L(y)) => x.iter().zip(y).all(|(p, q)| (p - q).abs() <= tol),
+        (Seg::Q(x), Seg::Q(y)) => x.iter().zip(y).all(|(p, q)| (p - q).abs() <= tol),
+        _ => false,
+    }
+}
+
+fn cyclic_equal(a: &[Seg], b: &[Seg], tol: f64) -> bool {
+    if a.len() != b.len() {
+        return false;
+    }
+    if a.is_empty() {
+        return true;
+    }
+    (0..a.len()).any(|r| (0..a.len()).all(|i| seg_close(&a[i], &b[(i + r) % b.len()], tol)))
+}
+
+#[derive(Default)]
+struct Rec(Vec<El>);
+impl OutlinePen for Rec {
+    fn move_to(&mut self, x: f32, y: f32) {
+        self.0.push(El::M(x as f64, y as f64));
+    }
+    fn line_to(&mut self, x: f32, y: f32) {
+        self.0.push(El::L(x as f64, y as f64));
+    }
+    fn quad_to(&mut self, a: f32, b: f32, x: f32, y: f32) {
+        self.0.push(El::Q(a as f64, b as f64, x as f64, y as f64));
+    }
+    fn curve_to(&mut self, _: f32, _: f32, _: f32, _: f32, _: f32, _: f32) {
+        self.0.push(El::C);
+    }
+    fn close(&mut self) {
+        self.0.push(El::Z);
+    }
+}
+
+fn check_path(run: &Run, els: &[El], l: &mut Local) {
+    l.evals += 1;
+    let case = || json!({"kind":"path","els":els_json(els)});
+    let mut path = BezPath::new();
+    for e in els {
+        match *e {
+            El::M(x, y) => {
+                path.move_to((x, y));
+            }
+            El::L(x, y) => {
+                path.line_to((x, y));
+            }
+            El::Q(a, b, x, y) => {
+                path.quad_to((a, b), (x, y));
+            }
+            El::Z => path.close_path(),
+            El::C => {}
+        }
+    }
+    let integer = els.iter().all(|e| match *e {
+        El::M(x, y) | El::L(x, y) => x.fract() == 0.0 && y.fract() == 0.0,
+        El::Q(a, b, x, y) => a.fract() == 0.0 && b.fract() == 0.0 && x.fract() == 0.0 && y.fract() == 0.0,
+        _ => true,
+    });
+    l.trans += 1;
+    let glyph = match guard(|| SimpleGlyph::from_bezpath(&path)) {
+        Ok(Ok(g)) => g,
+        Ok(Err(e)) => {
+            run.violation("SimpleGlyph::from_bezpath rejects a closed line/quad path", &format!("{e:?}"), case());
+            return;
+        }
+        Err(p) => {
+            run.violation(
+                &format!("SimpleGlyph::from_bezpath panic: {} in {}", p.kind(), p.site()),
+                &format!("{} ({}:{})", p.message, p.file, p.line),
+                case(),
+            );
+            return;
+        }
+    };
+    // table-level round trip of whatever the builder made of the path
+    let spec = GSpec::Simple {
+        contours: glyph
+            .contours
+            .iter()
+            .map(|c| c.iter().map(|p| (p.x, p.y, p.on_curve)).collect())
+            .collect(),
+        instr: vec![],
+    };
+    let n_on: usize = glyph.contours.iter().map(|c| c.iter().filter(|p| p.on_curve).count()).sum();
+    // (each contour's duplicated closing point is not an elision; count only true drops)
+    // hmtx.lsb = xMin, as in every well-formed font: the scaler places phantom point 1 at xMin - lsb
+    // and shifts the outline so that it lies at x = 0
+    let lsb = match &spec {
+        GSpec::Simple { contours, .. } => bbox_of(contours).x_min,
+        _ => 0,
+    };
+    let seq = [spec];
+    let Some(built) = check_sequence(run, "D", &seq, 0, l, &case) else {
+        return;
+    };
+    // assemble a font and draw unscaled
+    let r = guard(|| {
+        let head = Head {
+            units_per_em: 1000,
+            index_to_loc_format: built.long as i16,
+            ..Default::default()
+        };
+        let hhea = Hhea { number_of_h_metrics: 1, ..Default::default() };
+        let hmtx = Hmtx::new(vec![LongMetric::new(500, lsb)], vec![]);
+        let font_bytes = FontBuilder::new()
+            .add_table(&head)
+            .unwrap()
+            .add_table(&hhea)
+            .unwrap()
+            .add_table(&hmtx)
+            .unwrap()
+            .add_table(&Maxp::new(1))
+            .unwrap()
+            .add_raw(Tag::new(b"glyf"), built.glyf.clone())
+            .add_raw(Tag::new(b"loca"), built.loca.clone())
+            .build();
+        let font = FontRef::new(&font_bytes).map_err(|e| format!("font: {e}"))?;
+        let og = font
+            .outline_glyphs()
+            .get(GlyphId::new(0))
+            .ok_or_else(|| "no outline glyph 0".to_string())?;
+        let mut pen = Rec::default();
+        og.draw(DrawSettings::unhinted(Size::unscaled(), LocationRef::default()), &mut pen)
+            .map_err(|e| format!("draw: {e}"))?;
+        Ok::<_, String>(pen.0)
+    });
+    l.trans += 2;
+    let drawn = match r {
+        Ok(Ok(d)) => d,
+        Ok(Err(e)) => {
+            run.violation("a glyph built from a path cannot be drawn", &e, case());
+            return;
+        }
+        Err(p) => {
+            run.violation(
+                &format!("drawing a built glyph panics: {} in {}", p.kind(), p.site()),
+                &format!("{} ({}:{})", p.message, p.file, p.line),
+                case(),
+            );
+            return;
+        }
+    };
+    let (Some(want), Some(got)) = (contours_of(els), contours_of(&drawn)) else {
+        run.violation("drawn path is malformed (cubic or segment before move)", &format!("{drawn:?}"), case());
+        return;
+    };
+    // exact for integer inputs; within the half unit of coordinate rounding otherwise
+    let tol = if integer { 0.0 } else { 0.5 };
+    let ok = want.len() == got.len() && want.iter().zip(got.iter()).all(|(a, b)| cyclic_equal(a, b, tol));
+    if !ok {
+        run.violation(
+            &format!(
+                "glyph built from a {} path draws as a geometrically different path",
+                if integer { "integer" } else { "fractional" }
+            ),
+            &format!("input {els:?}; drawn {drawn:?}"),
+            case(),
+        );
+    }
+    // input on-curve anchors = one per segment; fewer on-curve points in the glyph = implied points dropped
+    if n_on < want.iter().map(|c| c.len()).sum::<usize>() {
+        l.elided += 1;
+    }
+    let mut h = Fnv::new();
+    h.str("path");
+    for c in &got {
+        h.u64(c.len() as u64);
+        for s in c {
+            match s {
+                Seg::L(v) => v.iter().for_each(|x| h.u64(x.to_bits())),
+                Seg::Q(v) => v.iter().for_each(|x| h.u64(x.to_bits())),
+            }
+        }
+    }
+    l.all.insert(h.finish());
+    l.nontrivial.insert(h.finish());
+}
+
+const ANCHOR_BASE: [(f64, f64); 5] = [(0.0, 0.0), (100.0, 0.0), (100.0, 100.0), (0.0, 100.0), (-50.0, 50.0)];
+const CTRL_BASE: [(f64, f64); 5] = [(50.0, -20.0), (120.0, 50.0), (50.0, 120.0), (-20.0, 50.0), (-40.0, 10.0)];
+const CTRL_DELTA: [(f64, f64); 3] = [(0.0, 0.0), (1.0, 0.0), (0.0, 1.0)];
+
+/// every closed contour of k segments: kinds in {L,Q}^k, control variants, anchor variants.
+/// Calls `f` with the element list (one contour, both closing styles), translated by `shift`.
+fn for_each_contour(k: usize, shift: (f64, f64), fractional: bool, f: &mut dyn FnMut(Vec<El>)) {
+    for kinds in 0..(1u32 << k) {
+        let is_q = |i: usize| kinds >> (i % k) & 1 == 1;
+        if k == 1 && !is_q(0) {
+            continue; // a single line back to the start is empty
+        }
+        // control choices for quad segments
+        let qs: Vec<usize> = (0..k).filter(|i| is_q(*i)).collect();
+        let nctrl = CTRL_DELTA.len() + fractional as usize;
+        let mut cd = vec![0usize; qs.len()];
+        loop {
+            let mut ctrl = vec![(0.0, 0.0); k];
+            for (j, &i) in qs.iter().enumerate() {
+                let d = if cd[j] < 3 { CTRL_DELTA[cd[j]] } else { (0.5, 0.0) };
+                ctrl[i] = (CTRL_BASE[i].0 + d.0, CTRL_BASE[i].1 + d.1);
+            }
+            // anchors: between two quads -> midpoint candidates
+            let between: Vec<usize> = (0..k).filter(|&i| is_q(i) && is_q((i + k - 1) % k) && k > 1).collect();
+            let nopt = 6usize;
+            let mut ad = vec![0usize; between.len()];
+            loop {
+                let mut anchors: Vec<(f64, f64)> = (0..k).map(|i| ANCHOR_BASE[i]).collect();
+                for (j, &i) in between.iter().enumerate() {
+                    let (c0, c1) = (ctrl[(i + k - 1) % k], ctrl[i]);
+                    let mid = ((c0.0 + c1.0) / 2.0, (c0.1 + c1.1) / 2.0);
+                    anchors[i] = match ad[j] {
+                        0 => mid,
+                        1 => (mid.0 + 1.0, mid.1),
+                        2 => (mid.0, mid.1 - 1.0),
+                        3 => (mid.0 + 0.5, mid.1),
+                        4 => (mid.0, mid.1 + 0.5),
+                        _ => ANCHOR_BASE[i],
+                    };
+                }
+                let has_fraction = anchors.iter().chain(ctrl.iter()).any(|p| p.0.fract() != 0.0 || p.1.fract() != 0.0);
+                if fractional || !has_fraction {
+                    for style in 0..2 {
+                        // style 1 (implicit closing line) only when the last segment is a line
+                        if style == 1 && is_q(k - 1) {
+                            continue;
+                        }
+                        let sh = |p: (f64, f64)| (p.0 + shift.0, p.1 + shift.1);
+                        let a0 = sh(anchors[0]);
+                        let mut els = vec![El::M(a0.0, a0.1)];
+                        for i in 0..k {
+                            let end = sh(anchors[(i + 1) % k]);
+                            if is_q(i) {
+                                let c = sh(ctrl[i]);
+                                els.push(El::Q(c.0, c.1, end.0, end.1));
+                            } else if !(style == 1 && i == k - 1) {
+                                els.push(El::L(end.0, end.1));
+                            }
+                        }
+                        els.push(El::Z);
+                        f(els);
+                    }
+                }
+                if !next_digits(&mut ad, nopt) {
+                    break;
+                }
+            }
+            if !next_digits(&mut cd, nctrl) {
+                break;
+            }
+        }
+    }
+}
+
+/// advance mixed-radix digits (last digit fastest); false when they wrap around to all zero
+fn next_digits(d: &mut [usize], radix: usize) -> bool {
+    for i in (0..d.len()).rev() {
+        d[i] += 1;
+        if d[i] < radix {
+            return true;
+        }
+        d[i] = 0;
+    }
+    false
+}
+
+fn path_family(run: &Run) {
+    let kmax = run.tier.pick(4usize, 5usize);
+    run.bound("D.max_segments", json!(kmax));
+    run.bound("D.control_variants", json!("base, +(1,0), +(0,1) [+(0.5,0) in the fractional family]"));
+    run.bound("D.anchor_between_quads", json!("midpoint, +(1,0), +(0,-1), +(0.5,0), +(0,0.5), far"));
+    run.bound("D.closing_styles", json!(["explicit return + close", "close only (implicit line)"]));
+    let mut paths: Vec<Vec<El>> = vec![];
+    for k in 1..=kmax {
+        for_each_contour(k, (0.0, 0.0), true, &mut |els| paths.push(els));
+    }
+    // the same ring near the edges of the coordinate range
+    for k in 2..=3 {
+        for_each_contour(k, (32767.0 - 130.0, -32768.0 + 30.0), false, &mut |els| paths.push(els));
+    }
+    run.count("D.single_contour_paths", paths.len() as u64);
+    // two-contour glyphs: all pairs of two-segment contours (second shifted)
+    let mut twos_a: Vec<Vec<El>> = vec![];
+    let mut twos_b: Vec<Vec<El>> = vec![];
+    for_each_contour(2, (0.0, 0.0), false, &mut |els| twos_a.push(els));
+    for_each_contour(2, (300.0, 7.0), false, &mut |els| twos_b.push(els));
+    let lim = run.tier.pick(40usize, usize::MAX);
+    let mut pairs = 0u64;
+    for a in twos_a.iter().take(lim) {
+        for b in twos_b.iter().take(lim) {
+            let mut els = a.clone();
+            els.extend(b.iter().copied());
+            paths.push(els);
+            pairs += 1;
+        }
+    }
+    if lim != usize::MAX && twos_a.len() > lim {
+        run.bound("D.two_contour_pairs", json!(format!("first {lim} × first {lim} of {} two-segment contours", twos_a.len())));
+    } else {
+        run.bound("D.two_contour_pairs", json!(format!("all {} × {}", twos_a.len(), twos_b.len())));
+    }
+    run.count("D.two_contour_paths", pairs);
+    run.sample(json!({"kind":"path","els":els_json(&paths[paths.len() / 3])}));
+    let locals: Vec<Local> = paths
+        .par_chunks(256)
+        .map(|chunk| {
+            let mut l = Local::new();
+            for els in chunk {
+                check_path(run, els, &mut l);
+            }
+            l
+        })
+        .collect();
+    for l in locals {
+        l.merge(run, "D");
+    }
+}
+
+// ---------------------------------------------------------------------------
+
+fn body(run: &Run, replay: Option<&Value>) {
+    run.rule("a case is one glyph sequence handed to GlyfLocaBuilder (or one BezPath); its observation is the encoded glyph bytes after the bounding box (simple/composite) per glyph plus the location format, or the drawn segment list; non-trivial = at least one non-empty glyph was built and decoded; distinct = distinct encodings / drawn outlines");
+    run.assume("oracle = the input description; canonical shortest length = optimal flag run-length use + 0/1/2 byte deltas, padded to 2 bytes");
+    run.assume("paths are closed (ClosePath) line/quadratic contours without zero-length segments; integer paths must draw back exactly (up to the start point of each contour), fractional ones within the half unit of coordinate rounding");
+    run.assume("bounding boxes are whatever the caller stored in the glyph (statement: decoded bbox = written bbox); CompositeGlyph::try_from_iter's box arithmetic is not part of the statement");
+    if let Some(case) = replay {
+        let mut l = Local::new();
+        match case["kind"].as_str() {
+            Some("seq") => {
+                let seq: Vec<GSpec> = case["glyphs"].as_array().unwrap().iter().map(gspec_from_json).collect();
+                let fillers = case["fillers"].as_u64().unwrap_or(0) as usize;
+                let fam = case["family"].as_str().unwrap_or("A").to_string();
+                let c = || case.clone();
+                check_sequence(run, &fam, &seq, fillers, &mut l, &c);
+            }
+            Some("run") => {
+                let seq = vec![gspec_from_json(&case["glyph"])];
+                let c = || case.clone();
+                check_sequence(run, "A2", &seq, 0, &mut l, &c);
+            }
+            Some("sized") => {
+                let seq = sized_from_desc(case);
+                let c = || case.clone();
+                check_sequence(run, "C.sized", &seq, 0, &mut l, &c);
+            }
+            Some("path") => check_path(run, &els_from_json(&case["els"]), &mut l),
+            _ => run.machinery_error("unknown replay kind"),
+        }
+        return;
+    }
+    // conformance gate of the reference length: hand-computed values
+    {
+        let g1 = vec![vec![(5i16, 0i16, true), (10, 0, false)]];
+        // 10 + 2 + 2 + 0 + flags 2 + x 2 = 18
+        let g2: Vec<Vec<Pt>> = vec![(0..300).map(|i| (i as i16 + 1, 0, true)).collect()];
+        // 300 equal flags: 2 (256) + 2 (44) = 4 ; x 300 ; header 14 -> 318
+        if reference_len(&g1, 0) != 18 || reference_len(&g1, 1) != 20 || reference_len(&g2, 0) != 318 {
+            run.machinery_error("reference_len conformance gate failed");
+            return;
+        }
+    }
+    sequence_family(run);
+    composite_family(run);
+    run_family(run);
+    path_family(run);
+    simple_family(run);
+}
